@@ -111,6 +111,9 @@ def dropBytes : Nat → List Char → Option (List Char)
     else if utf8Len c ≤ n then dropBytes (n - utf8Len c) cs
     else none
 
+/-- `str::is_char_boundary(s, n)`: 0, the length, or the first byte of a character. -/
+def isCharBoundary (s : List Char) (n : Nat) : Bool := (takeBytes n s).isSome
+
 /-- `TextDocumentContentChangeEvent`: `range: Some(..)` or `None` (full text). `range_length` is
 ignored by the server. -/
 inductive Change where
